@@ -214,7 +214,7 @@ def mesh_facts(ctx, entries):
             x = v[1]
             facts[x["id"]] = {"crit": [list(c) for c in x["crit"]], "lo": list(x["lo"]), "hi": list(x["hi"]), "pole": [bool(b) for b in x["pole"]],
                               "eqedge": [bool(b) for b in x["eqedge"]], "n": x["n"], "nodepos": sorted(x["nodepos"]),
-                              "flat": [sorted(z) for z in x["flat"]], "corners": [sorted(z) for z in x["corners"]], "tops": [sorted(z) for z in x["tops"]]}
+                              "flat": [sorted(z) for z in x["flat"]], "corners": [sorted(z) for z in x["corners"]], "tops": [sorted(z) for z in x["tops"]], "reenter": [sorted(z) for z in x["reenter"]]}
     os.remove(path)
     return facts, len(vals) - len(facts)
 
@@ -355,7 +355,7 @@ def mesh_call(job):
         n = len(faces)
         rec = {"kind": "mesh", "id": "%s@%s" % (job["id"], lam_id), "n": n, "lam": [kind, k], "lo": fx["lo"], "hi": fx["hi"], "pole": fx["pole"],
                "onpar": [bool(fx["eqedge"][f] and kind == "at" and fx["crit"][k - 1][0] == 0) for f in range(n)], "atpole": bool(atpole),
-               "nodepos": fx["nodepos"], "flat": fx["flat"], "corners": fx["corners"], "tops": fx["tops"],
+               "nodepos": fx["nodepos"], "flat": fx["flat"], "corners": fx["corners"], "tops": fx["tops"], "reenter": fx["reenter"],
                "cand": [f + 1 for f in cand], "raised": w is None, "lam_deg": math.degrees(lam), "sym_applied": list(job["sym"])}
         pos, orc, sum1, even, sym = [False] * n, [True] * n, False, False, True
         # narrowing fields for known findings (float, never a verdict): a candidate whose reported longitude bounds wrap
@@ -387,6 +387,9 @@ def mesh_call(job):
     return recs
 
 
+TARGETED = {"truncated_octahedron_split/r14/c3", "rhombicuboctahedron/r10/c0"}  # every latitude of these meshes is replayed in both tiers
+
+
 def mesh_jobs(entries, facts, rng, per_mesh):
     jobs = []
     for e in entries:
@@ -402,7 +405,7 @@ def mesh_jobs(entries, facts, rng, per_mesh):
                 if vals[k] - vals[k - 1] > 1e-3:
                     lats.append(("near%d+" % k, "gap", k, vals[k - 1] + 1e-5))
                     lats.append(("near%d-" % (k + 1), "gap", k, vals[k] - 1e-5))
-        if len(lats) > per_mesh:
+        if len(lats) > per_mesh and catalog.eid(e) not in TARGETED:
             lats = sorted(rng.sample(lats, per_mesh))
         sym = rng.choice([("turn", 1), ("turn", 2), ("turn", 3), ("mirror",), ("flip",)])
         jobs.append({"id": catalog.eid(e), "nodes": e["nodes"], "faces": e["faces"], "facts": fx, "lats": lats, "sym": sym})
@@ -422,7 +425,7 @@ def judge(ctx, recs):
     path = os.path.join(ctx.work, "zonal_recs.ndjson")
     keep = {"sweep": ("kind", "id", "rows", "n", "m", "raised", "got", "tot", "exact"),
             "weights": ("kind", "id", "rows", "n", "m", "raised", "got", "exact"),
-            "mesh": ("kind", "id", "n", "lam", "lo", "hi", "pole", "onpar", "atpole", "cand", "raised", "pos", "orc", "sum1", "even", "sym", "nodepos", "flat", "corners", "tops")}
+            "mesh": ("kind", "id", "n", "lam", "lo", "hi", "pole", "onpar", "atpole", "cand", "raised", "pos", "orc", "sum1", "even", "sym", "nodepos", "flat", "corners", "tops", "reenter")}
     with open(path, "w") as fh:
         for r in recs:
             fh.write(json.dumps({k: r[k] for k in keep[r["kind"]]}) + "\n")
@@ -468,11 +471,11 @@ def run(ctx):
              "rhombicuboctahedron", "truncated_octahedron_split", "truncated_cube_split", "tetrahedron"]
     entries = catalog.entries(name=names, cut=[0, 3])
     entries = [e for e in entries if e["rot"] != 0 or True]
-    if not thorough:
-        entries = rng.sample(entries, 70)
+    targeted = [e for e in entries if catalog.eid(e) in TARGETED]
+    entries = rng.sample([e for e in entries if catalog.eid(e) not in TARGETED], 260 if thorough else 68) + targeted
     facts, skipped = mesh_facts(ctx, entries)
     ctx.note("meshes", {"used": len(facts), "with_a_face_outside_the_C13_quantifier": skipped})
-    mj = mesh_jobs(entries, facts, rng, 40 if thorough else 10)
+    mj = mesh_jobs(entries, facts, rng, 16 if thorough else 10)
     jobs += [dict(j, what="mesh") for j in mj]
 
     recs = [r for rs in pmap(work, jobs, chunk=1) for r in rs]
@@ -485,7 +488,7 @@ def run(ctx):
     ctx.note("records", kinds)
     ctx.note("mesh_latitudes_outside_documented_domain_not_judged", len(unclaimed))
     nf = {}
-    drop = ("lo", "hi", "pole", "onpar", "nodepos", "flat", "corners", "tops")
+    drop = ("lo", "hi", "pole", "onpar", "nodepos", "flat", "corners", "tops", "reenter")
     for rid in sorted(failed):
         r = by_id[rid]
         clauses, sig = failed[rid]
